@@ -161,6 +161,32 @@ def many_pieces_cases(tier, shard, nshards):
                 yield {"t": gen.texel_str(t), "input": inp, "map": [["Scaffold_1", rows]], "prefix": "SUPER_"}
 
 
+def giant_cases(tier, shard, nshards):
+    """a 5.2 Gbp scaffold (coordinates beyond 2**32) of three contigs, cut into three pieces that are reordered, one reversed"""
+    import math
+
+    k = 0
+    for t in (1048576.0, 1500000.5, 87654.321):
+        for strand in (1, -1):
+            k += 1
+            if k % nshards != shard:
+                continue
+            rows = [["F", "giant_a", 1, 2_900_000_000, strand], ["G", 200, "scaffold"], ["F", "giant_b", 11, 1_400_000_010, 1],
+                    ["G", 50_000, "contig"], ["F", "giant_c", 1, 900_000_000, -strand]]
+            total = ref.rows_len(rows)
+            n_tex = math.floor(total / t)
+            ks = [0, n_tex // 3, (2 * n_tex) // 3, n_tex]
+            pcs = [gen.piece_coords(a, b, t) for a, b in zip(ks, ks[1:])]
+            order = [(2, 1), (0, -1), (1, 1)]
+            prows = []
+            for idx, o in order:
+                if prows:
+                    prows.append(list(gen.PRETEXT_GAP))
+                prows.append(["F", "scaffold_1", pcs[idx][0], pcs[idx][1], o, ["Painted"]])
+            yield {"t": gen.texel_str(t), "input": [["scaffold_1", rows], ["small", [["F", "s", 1, int(40 * t), 1]]]],
+                   "map": [["Scaffold_1", prows], ["Scaffold_2", [["F", "small", 1, int(40 * t), 1, []]]]], "prefix": "SUPER_"}
+
+
 def kp_reverse_contig_cut(sub, case, msg):
     """F7: a piece boundary falls strictly inside a reverse-strand input contig."""
     if "raised ValueError" not in msg or "does not" not in msg and "Sum of fragment" not in msg:
@@ -173,6 +199,8 @@ SUBS = [
         budget={"quick": 12000, "thorough": 300000}, desc="texel sizes 1 / 1.5 / 2 bp, up to 10 cuts per scaffold: pieces exactly as long as the error length"),
     Sub("many_pieces", kind="enum", cases=many_pieces_cases, body=body,
         budget={"quick": 18, "thorough": 18}, desc="a contig cut into ~300 two-texel pieces left in place (forward and reverse, three tail lengths, three texel sizes)"),
+    Sub("giant", kind="enum", cases=giant_cases, body=body,
+        budget={"quick": 6, "thorough": 6}, desc="a 5.2 Gbp input scaffold (coordinates beyond 2**32) cut into three reordered pieces, three texel sizes, both strands"),
     Sub("model", kind="hyp", strategy=cases, body=body,
         budget={"quick": 20000, "thorough": 600000},
         desc="clean PretextView-model maps over mixed-strand inputs; core-run / order / deep-cut validity predicate"),
